@@ -34,6 +34,7 @@ def _oc_case(draw, tier, tiny=False):
         "exclude_last": draw(st.booleans()),
         "padding": draw(st.sampled_from(PADS)),
         "entry": draw(st.sampled_from(["function", "module"])),
+        "layout": draw(st.sampled_from(G.LAYOUTS)),
     }
 
 
@@ -52,7 +53,7 @@ def _call_oc(case, ref, hyp):
 def _oc_check(case, brute):
     b = case["b"]
     N, H = b["N"], b["H"]
-    ref, hyp = G.to_tensors(b, case["batch_first"])
+    ref, hyp = G.to_tensors(b, case["batch_first"], case.get("layout", "contiguous"))
     got = _call_oc(case, ref, hyp)
     rows = H if case["exclude_last"] else H + 1
     require(got.dim() == 3, "optimal_completion result rank", got.dim(), 3)
@@ -166,6 +167,7 @@ def _loss_case(draw, tier):
         "reduction": draw(st.sampled_from(["none", "sum", "mean", "mean"])),
         "ignore_index": draw(st.sampled_from([-2, -100])),
         "entry": draw(st.sampled_from(["function", "module"])),
+        "layout": draw(st.sampled_from(G.LAYOUTS)),
     }
 
 
